@@ -13,6 +13,7 @@ var c03Err = errors.New("c03 task error")
 // kinds[i]: 0 = succeeds, 1 = returns an error, 2 = panics. In eager mode one more task is submitted after the
 // first completion was collected (as the run loop does for successors).
 func c03TM(nTasks int, eager bool, kinds []int, late bool) {
+	vcfg("race", 1) // what the collector reads from a task must have been written before the task was handed over
 	r := &runner{eager: eager}
 	tm := r.initTaskManager(runnableInvoke)
 	mk := func(id int) *task {
